@@ -60,10 +60,82 @@ theorem random_tree_good (nodes : List α) (hnd : nodes.Nodup) (d : α) (t : Edg
 theorem isTreeB_sound (n : Nat) (t : Edges) (h : isTreeB n t = true) : IsTree n t :=
   isTree_of_isTreeB n t h
 
+/-! ### degree tables and the pick loop (added later): exact neighbour-list lengths of the
+   deterministic shapes for every n, and what the `random.choice` loop can and cannot do -/
+
+/-- `nodes[k]` is exactly one entry when k is in range -/
+theorem nbr_length (nodes : List α) (k : Nat) (h : k < nodes.length) : (nbr nodes k).length = 1 := by
+  unfold nbr; simp [List.getElem?_eq_getElem h]
+
+/-- every vertex of a ring has exactly two neighbour entries (any n ≥ 1) -/
+theorem ring_degree (nodes : List α) : ∀ p ∈ ring nodes, p.2.length = 2 := by
+  intro p hp
+  unfold ring at hp
+  simp only [List.mem_mapIdx] at hp
+  obtain ⟨i, hi, rfl⟩ := hp
+  have hpos : 0 < nodes.length := by omega
+  simp only [List.length_append]
+  rw [nbr_length _ _ (Nat.mod_lt _ hpos), nbr_length _ _ (Nat.mod_lt _ hpos)]
+
+/-- a path has two end points of degree one and inner vertices of degree two -/
+theorem path_degree (nodes : List α) (h2 : 2 ≤ nodes.length) (i : Nat) (hi : i < nodes.length) :
+    ((path nodes)[i]?.map fun p => p.2.length) =
+      some (if i = 0 ∨ i = nodes.length - 1 then 1 else 2) := by
+  unfold path
+  simp only [List.getElem?_mapIdx, List.getElem?_eq_getElem hi, Option.map_some]
+  have hpos : 0 < nodes.length := by omega
+  split
+  · next h0 => subst h0; simp only [true_or, if_true]; rw [nbr_length _ _ (by omega)]
+  · next h0 =>
+    split
+    · next h1 => simp only [h1, or_true, if_true]; rw [nbr_length _ _ (by omega)]
+    · next h1 =>
+      simp only [h0, h1, or_self, if_false, List.length_append]
+      rw [nbr_length _ _ (Nat.mod_lt _ hpos), nbr_length _ _ (Nat.mod_lt _ hpos)]
+
+/-- every vertex of the complete graph has n-1 neighbour entries -/
+theorem complete_degree (nodes : List α) : ∀ p ∈ complete nodes, p.2.length = nodes.length - 1 := by
+  intro p hp
+  unfold complete at hp
+  simp only [List.mem_mapIdx] at hp
+  obtain ⟨i, hi, rfl⟩ := hp
+  simp only [List.length_append, List.length_take, List.length_drop]
+  omega
+
+/-- the number of picks the loop makes is forced: k - (n-1) -/
+theorem addPicks_length (n : Nat) (es : Edges) (picks : List (Nat × Nat)) (es' : Edges)
+    (h : addPicks n es picks = some es') : es'.length = es.length + picks.length := by
+  induction picks generalizing es with
+  | nil => simp [addPicks] at h; subst h; simp
+  | cons p ps ih =>
+    simp only [addPicks] at h
+    split at h
+    · have := ih _ h; simp at this ⊢; omega
+    · cases h
+
+/-- the tree's edges are kept, in order, in front of the picks -/
+theorem addPicks_prefix (n : Nat) (es : Edges) (picks : List (Nat × Nat)) (es' : Edges)
+    (h : addPicks n es picks = some es') : es' = es ++ picks := by
+  induction picks generalizing es with
+  | nil => simp [addPicks] at h; subst h; simp
+  | cons p ps ih =>
+    simp only [addPicks] at h
+    split at h
+    · have := ih _ h; simpa using this
+    · cases h
+
+/-- a pick that is already an edge (in either direction), a loop or out of range is never accepted -/
+theorem addPicks_rejects_bad_pick (n : Nat) (es : Edges) (p : Nat × Nat) (ps : List (Nat × Nat))
+    (hbad : validPick n es p = false) : addPicks n es (p :: ps) = none := by
+  simp [addPicks, hbad]
+
 /-! non-vacuity: concrete instances satisfy the hypotheses -/
 example : (["A", "B", "C", "D"] : List String).Nodup ∧ 3 ≤ (["A", "B", "C", "D"] : List String).length := by decide
 example : isTreeB 4 [(0, 1), (1, 2), (1, 3)] = true := by decide
 example : ∃ g, randomConnected (fun i => ["A", "B", "C", "D"].getD i "?") 4 4 [(0, 1), (1, 2), (1, 3)] [(0, 3)]
     = .ok g := ⟨_, rfl⟩
+example : addPicks 4 [(0, 1), (1, 2), (1, 3)] [(0, 3), (2, 3)] = some [(0, 1), (1, 2), (1, 3), (0, 3), (2, 3)] := by decide
+example : validPick 4 [(0, 1), (1, 2), (1, 3)] (1, 0) = false ∧ validPick 4 [(0, 1)] (2, 2) = false
+    ∧ validPick 4 [(0, 1)] (2, 4) = false := by decide
 
 end SqVerif.C17
